@@ -18,7 +18,6 @@ is removed when the shard ends.
 """
 import contextlib
 import itertools
-import math
 import os
 import shutil
 import tempfile
@@ -678,9 +677,10 @@ class _NitoolsStub:
 def _spm_data(nscans, nvox, fill, seed):
     total = sum(nscans)
     if fill == 0:
-        y = np.array([[float(((3 * t + 5 * p + (t * t) % 3) % 4) - 1) for p in range(nvox)]
-                      for t in range(total)])
-        y[:, 0] += 1.0          # a mean, so that every run has a component in a constant regressor
+        # integer-typed, like raw scanner data
+        y = np.array([[((3 * t + 5 * p + (t * t) % 3) % 4) - 1 for p in range(nvox)]
+                      for t in range(total)], dtype=np.int16)
+        y[:, 0] += 1            # a mean, so that every run has a component in a constant regressor
         return y
     g = rng_for(seed, 'spm', total, nvox, fill)
     return np.round(g.normal(size=(total, nvox)) + 0.5 * fill, 3)
